@@ -4,6 +4,7 @@ import Ptn.C02.ContractSpec
 import Ptn.C02.SplitSpec
 import Ptn.C02.ContractWF
 import Ptn.C02.SplitWF
+import Ptn.C02.OpsWF
 /-! Property theorems for C02.  Only property theorems and non-vacuity examples live here (part 1,
 the Node machine, is in `NodeProps.lean`, imported here); helper lemmas are in `Lemmas.lean`,
 `NodeSpec.lean`, `TTNLemmas.lean`, `ContractSpec.lean`, ….
@@ -298,5 +299,82 @@ theorem split_nodes_structure {t t' : TTN} {id : Id} {X : NodeS} {outL inL : TTN
   obtain ⟨a, b, aCh, bCh, na, nb, _, _, hcfg, _, hNa, hNb, p1, p2, p3, p4, _, _, _, _, hid, hby, _, hR⟩ :=
     split_final h adm hs
   exact ⟨a, b, aCh, bCh, na, nb, hcfg, hNa, hNb, p1, p2, p3, p4, hid, hby, hR⟩
+
+/-! ### the remaining edits, and arbitrary histories -/
+
+/-- `add_root` on the empty network yields a well-formed one-node network. -/
+theorem add_root_wf {t t' : TTN} {id : Id} {T : Tensor} (hn : t.nodes = []) (ht : t.tensors = [])
+    (h : t.addRoot id T = some t') : t'.WF :=
+  add_root_wf_aux hn ht h
+
+/-- `add_child_to_parent` keeps the network well-formed (whatever raw leg positions are used). -/
+theorem add_child_to_parent_wf {t t' : TTN} {cid pid : Id} {T : Tensor} {cl pl : Nat} (h : t.WF)
+    (hs : t.addChildToParent cid T cl pid pl = some t') : t'.WF :=
+  add_child_wf_aux h hs
+
+/-- `replace_tensor(node_id, new_tensor, permutation)` keeps the network well-formed when the permutation
+    (if any) is a permutation of the axes. -/
+theorem replace_tensor_wf {t t' : TTN} {id : Id} {newT : Tensor} {p : Option (List Nat)} (h : t.WF)
+    (hp : ∀ q, p = some q → q.Perm (List.range q.length))
+    (hs : t.replaceTensor id newT p = some t') : t'.WF :=
+  replace_tensor_wf_aux h hp hs
+
+/-- `change_node_identifier(new, old)` keeps the network well-formed when `new` is `old` or unused. -/
+theorem change_node_identifier_wf {t t' : TTN} {new old : Id} (h : t.WF)
+    (hnew : new = old ∨ t.N new = none) (hs : t.changeNodeIdentifier new old = some t') : t'.WF :=
+  rename_wf_aux h hnew hs
+
+/-- `insert_identity(child, parent, new)` keeps the network well-formed when `new` is unused. -/
+theorem insert_identity_wf {t t' : TTN} {cid pid new : Id} (h : t.WF) (hnew : t.N new = none)
+    (hs : t.insertIdentity cid pid new = some t') : t'.WF :=
+  insert_identity_wf_aux h hnew hs
+
+/-- **Every finite history of admissible operations** (contractions, splits of every kind, identity
+    insertions, identifier changes, tensor replacements with a permutation, plain accesses, additions of
+    children – in any interleaving) **keeps the network well-formed**: one root, symmetric links, a tree,
+    identical key sets, Node invariants, recorded shapes = stored shapes. -/
+theorem ops_preserve_wf {t t' : TTN} {ops : List TOp} (h : t.WF) (hr : TRun t ops t') : t'.WF :=
+  run_wf h hr
+
+/-- … in particular every network built from nothing. -/
+theorem built_networks_wf {t' : TTN} {id : Id} {T : Tensor} {ops : List TOp}
+    (hr : TRun TTN.empty (.root id T :: ops) t') : t'.WF :=
+  built_wf hr
+
+/-- Non-vacuity: a concrete history from the empty network – root `1`, child `2` (raw legs in the
+    "wrong" order), access, contraction `(2, 1) ↦ 3`, split of `3` (in-side becomes the root, identifier
+    `3` reused for the out-side), renaming, identity insertion, tensor replacement – is a `TRun`; hence
+    the final network (and every intermediate one) is well-formed. -/
+example : ∃ t', TRun TTN.empty
+    [.root 1 [⟨0, 2⟩, ⟨100, 3⟩, ⟨1, 2⟩],
+     .child 2 [⟨2, 2⟩, ⟨100, 3⟩] 1 1 1,
+     .access 1,
+     .contract 2 1 3,
+     .split 3 ⟨none, [], [1], false⟩ ⟨none, [], [0, 2], true⟩ 3 4 2,
+     .rename 5 4,
+     .ident 3 5 6,
+     .rtp 5 (some [2, 0, 1])] t' ∧ t'.WF := by
+  have hrun : ∃ t', TRun TTN.empty
+      [.root 1 [⟨0, 2⟩, ⟨100, 3⟩, ⟨1, 2⟩],
+       .child 2 [⟨2, 2⟩, ⟨100, 3⟩] 1 1 1,
+       .access 1,
+       .contract 2 1 3,
+       .split 3 ⟨none, [], [1], false⟩ ⟨none, [], [0, 2], true⟩ 3 4 2,
+       .rename 5 4,
+       .ident 3 5 6,
+       .rtp 5 (some [2, 0, 1])] t' := by
+    exact ⟨_,
+      .cons ⟨rfl, rfl⟩ rfl
+      (.cons trivial rfl
+      (.cons trivial rfl
+      (.cons (Or.inr (Or.inr rfl)) rfl
+      (.cons ⟨_, ⟨rfl, Or.inl rfl, Or.inr rfl, List.Perm.refl _,
+          Or.inr ⟨rfl, rfl, rfl, Or.inr ⟨rfl, rfl⟩⟩⟩⟩ rfl
+      (.cons (Or.inr rfl) rfl
+      (.cons rfl rfl
+      (.cons (fun q hq => by cases hq; decide) rfl
+      (.nil _))))))))⟩
+  obtain ⟨t', hr⟩ := hrun
+  exact ⟨t', hr, built_networks_wf hr⟩
 
 end Ptn.C02
